@@ -320,6 +320,221 @@ def gen(ctx):
     return cases
 
 
+
+# ----------------------------------------------------------------------------- object histories
+class HCase:
+    """one RemoteIndices object re-used: P, two, seed, D[m] = (src[r], dst[r]), slot0[j], ctor = (kind, slot, hints|None, inc), ops"""
+    def line(self):
+        t = [self.P, int(self.two), self.seed, len(self.D)]
+        def sets(d):
+            for r in range(self.P):
+                for z in (d[0][r], d[1][r]):
+                    t.append(len(z))
+                    for x in z: t.extend(x)
+        def hints(h):
+            for l in h: t.extend([len(l)] + list(l))
+        for d in self.D: sets(d)
+        t += [len(self.slot0)] + list(self.slot0)
+        k, sl, h, inc = self.ctor
+        t += [k, sl, int(h is not None), int(inc)]
+        if h is not None: hints(h)
+        t.append(len(self.ops))
+        for o in self.ops:
+            t.append(o[0])
+            if o[0] == 1:
+                t += [o[1], int(o[2] is not None)]
+                if o[2] is not None: hints(o[2])
+            elif o[0] == 2: hints(o[1])
+            elif o[0] == 3: t.append(int(o[1]))
+            elif o[0] == 5: t += [int(o[1]), int(o[2])]
+            elif o[0] == 6: t += [o[1], int(o[2]), int(o[3]), o[4]]
+        return " ".join(map(str, t))
+
+
+def parse_hcase(line):
+    t = list(map(int, line.split())); pos = [0]
+    def nx():
+        v = t[pos[0]]; pos[0] += 1; return v
+    c = HCase(); c.P, c.two, c.seed = nx(), nx() == 1, nx(); M = nx()
+    rset = lambda: [(nx(), nx(), nx(), nx()) for _ in range(nx())]
+    c.D = []
+    for _ in range(M):
+        src, dst = [], []
+        for r in range(c.P): src.append(rset()); dst.append(rset())
+        c.D.append((src, dst))
+    c.slot0 = [nx() for _ in range(nx())]
+    rh = lambda: [[nx() for _ in range(nx())] for _ in range(c.P)]
+    k, sl, hf, inc = nx(), nx(), nx(), nx() == 1
+    c.ctor = (k, sl, rh() if hf else None, inc)
+    c.ops = []
+    for _ in range(nx()):
+        k = nx()
+        if k == 1:
+            sl, hf = nx(), nx(); c.ops.append((1, sl, rh() if hf else None))
+        elif k == 2: c.ops.append((2, rh()))
+        elif k == 3: c.ops.append((3, nx() == 1))
+        elif k == 4: c.ops.append((4,))
+        elif k == 5: c.ops.append((5, nx() == 1, nx() == 1))
+        elif k == 6: c.ops.append((6, nx(), nx() == 1, nx() == 1, nx()))
+    return c
+
+
+def hist_walk(c):
+    """the history spec (python mirror of c04_hspec_step): yields, per rebuild, (synced_before or None, hints after, held content, ign, incEff)"""
+    cont = [[list(c.D[m][0]), list(c.D[m][1])] for m in c.slot0]
+    k, cur, h, inc = c.ctor
+    hints = [sorted(set(l)) for l in h] if h is not None else [[] for _ in range(c.P)]
+    built, stale, held = None, False, None
+    out = []
+    for o in c.ops:
+        if o[0] == 1:
+            cur = o[1]; hints = [sorted(set(l)) for l in o[2]] if o[2] is not None else [[] for _ in range(c.P)]
+            built, stale, held = None, False, None
+        elif o[0] == 2: hints = [sorted(set(l)) for l in o[1]]
+        elif o[0] == 3: inc = o[1]
+        elif o[0] == 4: built, stale, held = None, False, None
+        elif o[0] == 6:
+            _, sl, ws, wd, m = o
+            if ws: cont[sl][0] = list(c.D[m][0])
+            if wd: cont[sl][1] = list(c.D[m][1])
+            if sl == cur and (ws or wd): stale = True
+        elif o[0] == 5:
+            ign = o[1]
+            before = None if built is None else (not stale)
+            if built is None or ign != built or stale:
+                early = c.P == 1 and not (c.two or inc)
+                if not early: hints = [[q for q in l if q != p] for p, l in enumerate(hints)]
+                held = ([list(x) for x in cont[cur][0]], [list(x) for x in cont[cur][1]], ign, inc)
+                built, stale = ign, False
+            out.append((before, [list(l) for l in hints], held))
+    return out
+
+
+HREC = re.compile(r"\[b=([\d?]) s=(\d) gn=([\d,]*) eq=(\d) nb=(\d+) \{([^}]*)\}([^\]]*)\]")
+
+
+def hist_oracle(c, impl_line):
+    if impl_line.startswith("CRASH") or impl_line.startswith("HANG") or impl_line.startswith("NOT-RUN"):
+        return ("hang" if "HANG" in impl_line else "crash", impl_line)
+    parts = impl_line.split(" ; ")
+    if len(parts) != c.P: return ("format", "expected %d rank records, got %d: %s" % (c.P, len(parts), impl_line[:200]))
+    exp = hist_walk(c)
+    for p, s in enumerate(parts):
+        if not s.startswith("r%d" % p): return ("format", "rank record %d unreadable: %s" % (p, s[:200]))
+        recs = HREC.findall(s)
+        if len(recs) != len(exp): return ("format", "rank %d: %d rebuild records, expected %d" % (p, len(recs), len(exp)))
+        for n, (rec, (before, hints, held)) in enumerate(zip(recs, exp)):
+            b, sy, gn, eq, nb, mp, bad = rec
+            tag = "rank %d rebuild %d" % (p, n + 1)
+            if sy != "1": return ("sync", "%s: isSynced() false right after rebuild" % tag)
+            if before is not None and b != "?" and int(b) != int(before):
+                return ("sync", "%s: isSynced()=%s before the rebuild, but the targeted sets were %sresized since the last build" % (tag, b, "" if not before else "not "))
+            k = Case(); k.P, k.two, k.incself = c.P, c.two, held[3]; k.src = [held[0]]; k.dst = [held[1]]
+            r = check_map(k, spec_map(k, 0, held[2])[p], parse_map(mp), int(nb), tag)
+            if r: return ("lists", r)
+            if [int(x) for x in gn.split(",") if x] != hints[p]: return ("neighbours", "%s: getNeighbours()=[%s], expected %s" % (tag, gn, hints[p]))
+            if eq != "1": return ("opeq", "%s: operator== against a freshly built object over the same index sets is false" % tag)
+            if bad.strip(): return ("api", "%s:%s" % (tag, bad))
+    return None
+
+
+def gen_hist(rng, P, seedno):
+    c = HCase(); c.P = P; c.two = rng.random() < 0.45; c.seed = seedno if rng.random() < 0.8 else 0
+    U = rng.choice([2, 4, 8, 12]); attrs = rng.choice([1, 2, 3]); pubmode = rng.choice([0, 0, 1]); dup = rng.random() < 0.1
+    M = rng.choice([2, 3, 3])
+    c.D = []
+    for _ in range(M):
+        kind = rng.choice(["chain", "ringg", "star", "complete", "random"]); dens = rng.choice([0.3, 0.6, 0.9])
+        ss = gen_decomp(rng, P, U, kind, dens)
+        src = [gen_set(rng, ss[p], attrs, pubmode, dup) for p in range(P)]
+        if c.two:
+            tt = gen_decomp(rng, P, U, rng.choice([kind, "random"]), dens)
+            dst = [gen_set(rng, tt[p], attrs, pubmode, dup) for p in range(P)]
+        else:
+            dst = [[] for _ in range(P)]
+        c.D.append((src, dst))
+    c.slot0 = [rng.randrange(M), rng.randrange(M)]
+    HOLE = "H"                                      # hints to be filled in by the second pass
+    def hint_choice(): return HOLE if rng.random() < 0.6 else None
+    c.ctor = (rng.choice([0, 0, 1]), rng.randrange(2), hint_choice(), rng.random() < 0.3)
+    ops = []
+    for _ in range(rng.choice([2, 3, 3, 4])):
+        for _ in range(rng.choice([0, 1, 1, 2, 3])):
+            z = rng.random()
+            if z < 0.3: ops.append((1, rng.randrange(2), hint_choice()))
+            elif z < 0.45: ops.append((2, HOLE if rng.random() < 0.7 else "EMPTY"))
+            elif z < 0.6: ops.append((3, rng.random() < 0.5))
+            elif z < 0.7: ops.append((4,))
+            else:
+                if c.two: ws, wd = rng.choice([(True, False), (False, True), (True, True)])
+                else: ws, wd = True, rng.random() < 0.1
+                ops.append((6, rng.randrange(2), ws, wd, rng.randrange(M)))
+        ops.append((5, rng.random() < 0.4, False))
+    # second pass: simulate, collect per hint epoch the contents that are built under it, fill tight admissible hints
+    cont = [[c.D[m][0], c.D[m][1]] for m in c.slot0]
+    cur = c.ctor[1]
+    epochs = []                                     # [setter index (-1 = ctor), list of (src, dst) contents built]
+    ep = [-1, []] if c.ctor[2] == HOLE else None
+    for i, o in enumerate(ops):
+        if o[0] == 1:
+            cur = o[1]
+            if ep: epochs.append(ep)
+            ep = [i, []] if o[2] == HOLE else None
+        elif o[0] == 2:
+            if ep: epochs.append(ep)
+            ep = [i, []] if o[1] == HOLE else None
+        elif o[0] == 6:
+            if o[2]: cont[o[1]][0] = c.D[o[4]][0]
+            if o[3] and c.two: cont[o[1]][1] = c.D[o[4]][1]
+        elif o[0] == 5 and ep is not None:
+            ep[1].append((cont[cur][0], cont[cur][1]))
+    if ep: epochs.append(ep)
+    def mk_hints(builds):
+        g = [set() for _ in range(P)]
+        for src, dst in builds:
+            for p in range(P):
+                for q in range(P):
+                    if p != q and {x[0] for x in src[p]} & {x[0] for x in (dst[q] if c.two else src[q])}: g[p].add(q); g[q].add(p)
+        for _ in range(rng.choice([0, 0, 0, 1, 2])):
+            p, q = rng.randrange(P), rng.randrange(P)
+            if p != q: g[p].add(q); g[q].add(p)
+        if P == 1: return [[0]] if rng.random() < 0.5 else [[]]
+        for p in range(P):
+            if not g[p]:
+                q = rng.choice([x for x in range(P) if x != p]); g[p].add(q); g[q].add(p)
+        h = []
+        for p in range(P):
+            l = sorted(g[p]) + ([p] if rng.random() < 0.2 else []) + ([sorted(g[p])[0]] if rng.random() < 0.1 else [])
+            rng.shuffle(l); h.append(l)
+        return h
+    fill = {i: mk_hints(b) for i, b in epochs}
+    k, sl, h, inc = c.ctor
+    c.ctor = (k, sl, fill[-1] if h == HOLE else None, inc)
+    for i, o in enumerate(ops):
+        if o[0] == 1 and o[2] == HOLE: ops[i] = (1, o[1], fill[i])
+        elif o[0] == 2: ops[i] = (2, fill[i] if o[1] == HOLE else [[] for _ in range(P)])
+    c.ops = ops
+    # third pass: the includeSelf value a comparison object must use = the one in force at the last effective build
+    w = hist_walk(c); j = 0
+    for i, o in enumerate(c.ops):
+        if o[0] == 5:
+            c.ops[i] = (5, o[1], w[j][2][3]); j += 1
+    return c
+
+
+def gen_hists(ctx):
+    cases = []
+    cp = os.path.join(V.VERIF, "corpus", "C04", "hist.txt")
+    if os.path.exists(cp):
+        cases += [parse_hcase(l) for l in open(cp) if l.strip() and not l.startswith("#")]
+    rng = ctx.rng("hist")
+    per = {1: 30, 2: 80, 3: 200, 4: 160, 5: 120} if ctx.quick else {1: 100, 2: 600, 3: 2000, 4: 1500, 5: 1200, 6: 600, 7: 400}
+    n = 0
+    for P in sorted(per):
+        for _ in range(per[P]):
+            n += 1; cases.append(gen_hist(rng, P, n))
+    return cases
+
 # ----------------------------------------------------------------------------- running
 def build_impl(ctx, san=False):
     srcs = list(HARNESS); flags = []
@@ -334,7 +549,7 @@ def build_impl(ctx, san=False):
     return outs if san else outs[0]
 
 
-def run_impl(ctx, exe, cases, tag, tmo=None, env=None):
+def run_impl(ctx, exe, cases, tag, tmo=None, env=None, hist=False):
     """cases: list of Case; grouped by P (one mpirun -np P launch per group); returns list of lines in case order"""
     tmo = tmo or (30 if ctx.quick else 60)
     out = [None] * len(cases)
@@ -342,7 +557,7 @@ def run_impl(ctx, exe, cases, tag, tmo=None, env=None):
     for P in sorted(set(c.P for c in cases)):
         idx = [i for i, c in enumerate(cases) if c.P == P]
         lines = [cases[i].line() for i in idx]
-        cmd = ["mpirun", "--allow-run-as-root", "--oversubscribe", "-np", str(P), exe]
+        cmd = ["mpirun", "--allow-run-as-root", "--oversubscribe", "-np", str(P), exe] + (["hist"] if hist else [])
         t0 = time.time()
         res = V.run_cases(ctx, cmd, lines, tag="%s.p%d" % (tag, P), timeout=max(300, len(lines) * 2 + 4 * tmo), max_restarts=4,
                           env=dict({"C04_CASE_TIMEOUT": str(tmo), "OMPI_MCA_rmaps_base_oversubscribe": "1", "OMPI_MCA_mpi_yield_when_idle": "1"}, **(env or {})))
@@ -431,6 +646,43 @@ def run(ctx):
         elif ngt <= 20:
             ctx.violation(sig_of(c, o[0] if o else "differs-from-int", gt), {"case": lines[i], "gtype": gt, "global_index_type": GTYPES[gt], "impl": a,
                           "impl_with_int_globals": io[i], "oracle": o[1] if o else "accepts, but differs from the run with int globals"}, found_input=o is not None)
+    # object histories: one RemoteIndices object re-used over several pairs of index sets
+    hcases = gen_hists(ctx)
+    hlines = [c.line() for c in hcases]
+    hmo = V.run_cases(ctx, [model, "hist"], hlines, tag="hmodel", timeout=900)
+    hio, _ = run_impl(ctx, exe, hcases, "himpl", hist=True)
+    nh, hstat = 0, {"rebuilds": 0, "setIndexSets_with_hints": 0, "setIndexSets_without_hints": 0, "setNeighbours": 0, "setIncludeSelf": 0,
+                    "free": 0, "resizes": 0, "default_ctor": 0, "rebuilds_not_taking_place": 0}
+    for i, (c, m, a) in enumerate(zip(hcases, hmo, hio)):
+        mm, _, spec = m.partition(" | ")
+        for o in c.ops:
+            if o[0] == 1: hstat["setIndexSets_with_hints" if o[2] is not None else "setIndexSets_without_hints"] += 1
+            else: hstat[{2: "setNeighbours", 3: "setIncludeSelf", 4: "free", 5: "rebuilds", 6: "resizes"}[o[0]]] += 1
+        hstat["default_ctor"] += c.ctor[0]
+        hstat["rebuilds_not_taking_place"] += sum(1 for w in hist_walk(c) if w[0] is True)
+        if a is None or a.startswith("NOT-RUN"): continue
+        if (a.startswith("HANG") or a.startswith("CRASH")) and nh < 3:
+            a = run_impl(ctx, exe, [c], "halone", tmo=120, hist=True)[0][0]
+        o = hist_oracle(c, a)
+        if o is not None:
+            nh += 1
+            if nh <= 12:
+                ctx.violation("C04:hist-%s:%s" % (o[0], "two" if c.two else "one"),
+                              {"case": hlines[i], "kind": "hist", "impl": a, "oracle": o[1], "model": mm, "spec": spec,
+                               "ops": [list(map(str, x)) for x in [("ctor",) + tuple(c.ctor)] + list(c.ops)],
+                               "replay_cmd": "bin/check C04 --replay <this file>"})
+        elif a != mm:
+            nh += 1
+            if nh <= 5:
+                ctx.violation("corr:C04/history", {"broken": "corr:C04/history", "case": hlines[i], "kind": "hist", "impl": a, "model": mm, "spec": spec,
+                                                    "oracle": "accepts impl output"}, found_input=False)
+        if hist_oracle(c, spec) is not None:
+            ctx.violation("corr:C04/hist-spec-vs-python-oracle", {"broken": "extracted history spec and python mirror differ", "case": hlines[i],
+                                                                   "spec": spec, "python": hist_oracle(c, spec)[1]}, found_input=False)
+        ms = re.sub(r"b=\d", "b=?", mm) == re.sub(r"b=[\d?]", "b=?", spec)
+        if not ms:
+            ctx.violation("corr:C04/hist-model-vs-spec", {"broken": "extracted object model and extracted history spec differ (theorem C04_obj_history)",
+                                                           "case": hlines[i], "model": mm, "spec": spec}, found_input=False)
     # ASan/UBSan build on a subsample (memory safety of the unpack loops and of the pointer-carrying lists)
     sub = list(range(0, len(cases), 9 if ctx.quick else 4))
     so, _ = run_impl(ctx, exe_san, [cases[i] for i in sub], "san", tmo=60 if ctx.quick else 120,
@@ -491,7 +743,7 @@ def run(ctx):
                 ctx.violation("corr:C04/spec-vs-python-oracle", {"broken": "extracted Coq spec and the python set comprehension differ", "case": lines[i],
                                                                   "spec": spec, "python": oracle(c, spec)[1]}, found_input=False)
     ctx.coverage.update({
-        "evaluations": len(cases), "distinct_nontrivial": len(nontriv),
+        "evaluations": len(cases) + len(hcases), "distinct_nontrivial": len(nontriv),
         "rule": "cases = corpus + exhaustive P=2 one-set scope (globals {0,1}, per rank and global: absent or (attr in {0,1}, public in {0,1}), both "
                 "publicity modes, ring/neighbour alternating) + seeded random decompositions from overlap graphs (chain, ring, star, complete, random), "
                 "universe <= 16, attrs <= 3, public flags random / all / none, one or two decompositions, empty ranks, duplicate-global sets (15%), "
@@ -501,7 +753,7 @@ def run(ctx):
         "samples": [lines[0][:300], lines[len(lines) // 2][:300], lines[-1][:300]],
         "distribution": stats, "impl_model_disagreements": ndis, "oracle_rejections": nviol, "model_spec_disagreements": nspec,
         "pmpi_shim": {"linked": os.path.exists(SHIM), "perturbed_sweeps": shim[0], "calls_reporting_out_of_index_order": shim[1], "delays": shim[2]},
-        "global_index_types": gstat, "global_index_type_rejections": ngt, "sanitizer_cases": len(sub), "sanitizer_differences": nsan, "exhaustive": False, "cases_not_run_after_repeated_crashes": nnotrun,
+        "object_histories": len(hcases), "object_history_ops": hstat, "object_history_rejections": nh, "global_index_types": gstat, "global_index_type_rejections": ngt, "sanitizer_cases": len(sub), "sanitizer_differences": nsan, "exhaustive": False, "cases_not_run_after_repeated_crashes": nnotrun,
         "traces_validated_against_impl": sum(1 for a in io + gio if not (a.startswith("NOT-RUN") or a.startswith("CRASH") or a.startswith("HANG"))),
     })
     ctx.assumptions += ["MPI (matching, non-overtaking, Ssend/Recv rendezvous, MPI_Pack/Unpack of the struct datatype) is trusted; the datatype's content is C07",
@@ -513,9 +765,19 @@ def run(ctx):
 def replay(ctx, path):
     rep = json.load(open(path))
     line = rep["case"]
-    c = parse_case(line)
     model = V.build_model(ctx)
     exe = build_impl(ctx)
+    if rep.get("kind") == "hist":
+        c = parse_hcase(line)
+        mo = V.run_cases(ctx, [model, "hist"], [line], tag="rhmodel")
+        a = run_impl(ctx, exe, [c], "rhimpl", tmo=120, hist=True)[0][0]
+        mm, _, spec = mo[0].partition(" | ")
+        print("ops   :", [("ctor",) + tuple(c.ctor)] + list(c.ops))
+        print("impl  :", a); print("model :", mm); print("spec  :", spec)
+        o = hist_oracle(c, a)
+        print("oracle:", o[1] if o else "accepts")
+        return 1 if o else 0
+    c = parse_case(line)
     mo = V.run_cases(ctx, [model], [line], tag="rmodel")
     gt = int(rep.get("gtype", 0))
     a = rerun_alone(ctx, exe, c, "rimpl", gt)
